@@ -78,7 +78,7 @@ def mc_instances(prop, t):
     out.append(("from-empty", mc_cfg("Spec", 4 if q else 6, 1, "FALSE", "FALSE", "MCAmounts", "MCQtysSmall", "MCInstantsSmall",
                                      "MCAllPids", "TRUE", P["inv"], P["prop"])))
     # a held asset quoted at a non-positive mid: the clock update is refused as a whole (nothing marked, nothing filled)
-    out.append(("bad-quotes", mc_cfg("Spec", 5 if q else 7, 3, "FALSE", "TRUE", "MCAmountsSmall", "MCQtysSmall", "MCInstantsSmall",
+    out.append(("bad-quotes", mc_cfg("Spec", 5 if q else 6, 3, "FALSE", "TRUE", "MCAmountsSmall", "MCQtysSmall", "MCInstantsSmall",
                                      "MCPids", "FALSE", P["inv"], P["prop"], badq="TRUE")))
     # requests made directly on a portfolio (refusals with and without clock movement)
     if prop in ("C15", "C03", "C02", "C01"):
